@@ -138,6 +138,7 @@ class Check:
         self.drift = []
         self.exhaustive = None
         self._n = 0
+        self._counter = __import__('itertools').count(1)
         self.findings = load_findings(pid)
 
     # ------------------------------------------------------------------ util
@@ -163,9 +164,9 @@ class Check:
         cfg: name of a .cfg file in the spec dir; cfg_text: literal config (wins).
         files: {name: text or path} extra files placed in the scratch dir (e.g. observed.ndjson).
         count: add states/transitions to the evidence totals."""
-        self._n += 1
+        n = next(self._counter)      # thread-safe: several TLC runs may be started from a thread pool
         sdir = os.path.join(VERIF, "specs", spec_dir)
-        run = self.scratch("tlc%02d_%s" % (self._n, label or module))
+        run = self.scratch("tlc%02d_%s" % (n, label or module))
         for f in os.listdir(sdir):
             if f.endswith(".tla") or f.endswith(".cfg"):
                 shutil.copy(os.path.join(sdir, f), run)
